@@ -10,7 +10,7 @@ PROPS = {
         check_targets=["Check/CheckNames.vo"],
         proof_targets=["Props/C29.vo"],
         theorems=[("C29", "C29_names_follow_functions"), ("C29", "C29_import_name_index"), ("C29", "C29_names_follow_import_items"), ("C29", "C29_partial"),
-                  ("C29", "C29_partial_global_entity"), ("C29", "C29_checker_sound")],
+                  ("C29", "C29_partial_global_entity"), ("C29", "C29_import_global_names"), ("C29", "C29_checker_sound")],
         quick=dict(n=1500), thorough=dict(n=30000), per_shard=300,
         rule="generated modules (0-5 imports of all five kinds, 1-4 local functions with parameters and locals, 0-3 globals, a table, 0-1 memories, element / data segments) with a complete name section "
              "after the code section (module, function, local, label, type, table, memory, global, element, data, tag names; 1/4 sparse, 1/12 absent), histories of 0-8 calls: index-shifting edits "
@@ -18,15 +18,16 @@ PROPS = {
              "FunctionBuilder::finish_module) mixed with naming calls (Module::set_fn_name, functions.set_local_fn_name, imports.set_fn_name, imports.set_name, FunctionBuilder::set_name) on the ids "
              "the API really returned; 3/10 of the histories only append and name (no input index moves); non-trivial = name section present and history non-empty",
         level_text="Proof (all inputs, all histories): the rebuilt function-name map consists exactly of (position of a live local function after recalculate_ids = the index its stored id is mapped to, body name) "
-                   "and (position of an emitted function import among the emitted function imports = its Wasm function index = the index the id map sends the import's function id to, custom name of its entry; the imports are emitted in index order since the repair of D02: C29_names_follow_import_items). Partial proof for the local / global maps (written back with the parsed "
-                   "indices: right exactly when the id maps are the identity on the named ids; for globals the entity is the same by fingerprint). The whole property (soundness and retention of function, "
-                   "local and global names against stable handles, naming calls, conversions) is decided per history in Coq on the decoded real output. Known classes D21, D25 (what is left of it: imports.set_fn_name on ids of imports added / converted after parsing), D202; D201, the Module::set_fn_name / miscount parts of D25 and the index-space defects D06 / D26 (a deleted item stayed in the function / global vector; former witnesses: C29_former_D06_witness_holds, C29_former_D26_witness_holds) are repaired (fix: commits).",
+                   "and (position of an emitted function import among the emitted function imports = its Wasm function index = the index the id map sends the import's function id to, custom name of its entry; the imports are emitted in index order since the repair of D02: C29_names_follow_import_items). Since the repair of D21 also a full proof for the local / global maps (C29_partial, C29_partial_global_entity - the names of the former partial results): "
+                   "the emitted maps consist exactly of the custom names of the emitted global imports under their global indices (C29_import_global_names; imports.set_name, since the repair of D202) and of the parsed entries whose function (not converted) / global still has an index, each under the index the id map assigns, in ascending order, "
+                   "and the item at that index is the very function / global of the input (stored id, fingerprint, kind). The whole property (soundness and retention of function, "
+                   "local and global names against stable handles, naming calls, conversions) is decided per history in Coq on the decoded real output. Known class D25 (what is left of it: imports.set_fn_name on ids of imports added / converted after parsing); D21 (stale local / global maps, name lost on conversion; former witnesses: C29_repaired_D21_*), D202 (imports.set_name on a global import; C29_repaired_202), D201, the Module::set_fn_name / miscount parts of D25 and the index-space defects D06 / D26 (a deleted item stayed in the function / global vector; former witnesses: C29_former_D06_witness_holds, C29_former_D26_witness_holds) are repaired (fix: commits).",
         level_note="Trusted: Coq kernel + vm_compute; the harness (module generator with fingerprints, name tokens, wasmparser decoding of the output's name section and layout). Modelled, not verified: "
                    "parse_internal's name handling, the naming API, the name-section part of encode_internal. The specification's reading of 'attached by a naming call' for conversions is stated in "
                    "CheckNames.v (header) - a converted function keeps its name (the import field name the API assigns is accepted as well).",
         technique="Coq theorems over the mirror model (invariant of all histories, id-map position theorem) + executable handle specification evaluated in Coq on the real output + refutation witnesses",
         design_ref="5/C29", trusted_base=NAMES_TB,
-        modelled="name handling of parse_internal, naming API, function-name rebuild and verbatim write-back of the other maps in encode_internal",
+        modelled="name handling of parse_internal, naming API, function-name rebuild, re-indexing of the local / label / memory / global maps and verbatim write-back of the other maps in encode_internal",
         assumptions=["a history in which an *edit* call panics, or that names a dead / unknown handle or uses a stale ImportsID, or whose decoded layout is not the live entity set of the handle specification "
                      "(a C06 / C09 / C10 defect), is outside the domain; a panic of a *naming* call on a live handle is a failure of the property",
                      "a failure is excused only if every failing requirement is explained by a known class present in the input and the output equals the mirror model's prediction; otherwise class 299 / a mismatch is reported"],
